@@ -942,6 +942,44 @@ def _loop_var_and_seq(lp: ast.For):
     return None, None
 
 
+def rule_rekey(ctx, rule="R3", consequence=""):
+    """An initializer stays keyed by its current name: in the Value.name setter every path from the store of the new name
+    to the function's exit passes the test that leads to the re-keying of the graph's initializer table."""
+    from ..cfg import CFG
+
+    setter = ctx.repo.cls("onnx_ir._core:Value").props.get("name", {}).get("set")
+    ctx.require(setter is not None, "Value.name setter not found")
+    stores = [a for a in own_nodes(setter.node) if isinstance(a, ast.Assign) and any(
+        isinstance(t, ast.Attribute) and t.attr == "_name" and norm(t.value) == setter.params[0] for t in a.targets)]
+    rekeys = [a for a in own_nodes(setter.node) if isinstance(a, ast.Assign) and any(
+        isinstance(t, ast.Subscript) and isinstance(t.value, ast.Attribute) and t.value.attr == "initializers" for t in a.targets)]
+    ctx.require(bool(stores) and bool(rekeys), "store of _name / re-keying of the initializer table not found in the Value.name setter")
+    cfg = CFG(setter.node)
+    for st in stores:
+        sn = cfg.nodes_containing(st)[0]
+        # the tests that guard the re-keying statement
+        guards = []
+        p_ = getattr(rekeys[0], "_parent", None)
+        while p_ is not None and p_ is not setter.node:
+            if isinstance(p_, ast.If):
+                guards += [x for x in cfg.node_of(p_) if x.kind == "test"]
+            p_ = getattr(p_, "_parent", None)
+        rn = cfg.nodes_containing(rekeys[0])[0]
+        after = cfg.dominates(sn, rn) or any(cfg.dominates(sn, g) for g in guards)
+        if guards and after:
+            ok = not cfg.path_exists_avoiding(sn, {cfg.exit.id}, {g.id for g in guards}, exc=False)
+        elif after:
+            ok = not cfg.path_exists_avoiding(sn, {cfg.exit.id}, {rn.id}, exc=False)
+        else:
+            # re-keyed before the store: fine as long as the re-keying dominates the store
+            ok = cfg.dominates(rn, sn) or any(cfg.dominates(g, sn) for g in guards)
+        ctx.check(rule, "Value.name setter: every path from the store of the new name reaches the initializer re-keying test", ok, setter, st,
+                  "after `self._name = value` the setter can return without reaching the test that re-keys `graph.initializers`: an initializer "
+                  f"renamed on that path stays stored under its old name{consequence}",
+                  how="CFG: paths from the `_name` store to the exit that avoid the test guarding `<graph>.initializers[...] = self`",
+                  construct="initializer re-keying skipped on a path of the name setter")
+
+
 def rule_r8(ctx):
     n = 0
     for mn in ("onnx_ir._core", "onnx_ir._graph_containers", "onnx_ir._convenience"):
@@ -991,6 +1029,7 @@ def rule_r8(ctx):
 
 
 def run(ctx):
+    rule_rekey(ctx)
     rule_r8(ctx)
     rule_r7(ctx)
     rule_per_instance_state(ctx)
